@@ -131,7 +131,7 @@ def main():
             j = int(args[i + 1])
             i += 2
         elif args[i] == "--seed-dir":
-            seeds.append(args[i + 1])
+            seeds.append(os.path.abspath(args[i + 1]))
             i += 2
         elif args[i] == "--all-checks":
             all_checks = True
